@@ -52,6 +52,7 @@ DECIDING = {
     "driver_manual": "exit driven by explicit __aexit__",
     "driven_inside_except_handler": "exit driven inside a caller's except handler",
     "native_cancel_runs": "native asyncio cancellation",
+    "ctxteardown_called_with_another_context": "@context_teardown function/method called with a Context other than the current one as argument",
     "callback_form_partial": "callbacks given as functools.partial",
     "callback_form_object": "callbacks given as objects with (async) __call__",
 }
